@@ -169,6 +169,11 @@ func doHooked(addr string, parts [][]byte, gap time.Duration, timeout time.Durat
 			break
 		}
 	}
+	// the hook is also told when the header block is complete (no payload yet)
+	if onData != nil && !onData(0) {
+		resp.ReadErr = "aborted by client"
+		return resp, nil
+	}
 	emit := func() bool {
 		resp.Events = append(resp.Events, ReadEvent{At: time.Now(), Len: len(resp.Body)})
 		if onData != nil {
